@@ -70,7 +70,7 @@ impl Wasm {
 
     #[wasm_bindgen(js_name = updateConfig)]
     pub fn update_config(&mut self, source: &str) {
-        *self.0.linter.config_mut() = FluffConfig::from_source(source, None);
+        self.0.linter = Linter::new(FluffConfig::from_source(source, None), None, None, false);
         self.0.recheck_files();
     }
 
@@ -169,7 +169,9 @@ impl LanguageServer {
                 let uri = params.text_document.uri.as_str();
 
                 if uri.ends_with(".sqlfluff") || uri.ends_with(".sqruff") {
-                    *self.linter.config_mut() = load_config();
+                    // A new linter, not only a new configuration: the templater is chosen from
+                    // the configuration when the linter is built.
+                    self.linter = Linter::new(load_config(), None, None, false);
 
                     self.recheck_files();
                 }
